@@ -105,12 +105,14 @@ static void init_case(int prior, int f, unsigned ch, uint32_t rate, uint32_t fra
 static void gen_init(int thorough)
 {
 	static const unsigned chs[] = { 1, 2, 6, 255 };
-	static const uint32_t rates[] = { 1, 8000, 44100, 192000 };
+	static const uint32_t rates[] = { 1, 8000, 44100, 192000, 1u << 27, (1u << 28) + 1, 0x3fffffffu };
 	for (int prior = 0; prior < 3; prior++)
 		for (int f = 0; f < 3; f++)
 			for (int c = 0; c < 4; c++)
-				for (int r = 0; r < 4; r++) {
+				for (int r = 0; r < 7; r++) {
 					unsigned ba = chs[c] * (f == 0 ? 2 : 4);
+					if ((uint64_t)rates[r] * ba > 0xffffffffull) continue;      /* scope: sizes fit in 32 bits */
+					if (r >= 4 && prior == 1) continue;
 					uint32_t fr[] = { 0, 1, 2, 1000, 65536, (0xffffffffu - 64) / ba };
 					for (int k = 0; k < 6; k++) {
 						if (!thorough && prior && (k == 2 || k == 4)) continue;
@@ -144,7 +146,7 @@ static void decode_case(const uint8_t *src, int sz)
 	jhdr("h", h);
 	int relen = -1000;
 	uint8_t *re = NULL;
-	if (ret >= 0 && ret <= sz && ret <= 4096) {
+	if (ret >= 0 && ret <= sz && ret <= 200000) {
 		re = malloc(ret ? ret : 1);
 		memset(re, 0xEE, ret);
 		relen = rf_wavheader_encode(h, re, ret);
@@ -173,6 +175,10 @@ static int base_header(int kind, uint8_t *buf)
 		rf_wavheader_init(&h, 8000, 1, RF_WAVHEADER_S16LE);
 		h.fmt_chunk_size = 18; h.chunk_size = 4 + 8 + 18 + 8;
 		break;
+	case 6: /* PCM with a fact chunk (legal, though init never produces it) */
+		rf_wavheader_init(&h, 22050, 2, RF_WAVHEADER_S16LE);
+		memcpy(h.fact_chunk_id, "fact", 4); h.fact_chunk_size = 12; h.sample_length = 9; h.chunk_size += 12;
+		break;
 	case 5: /* 21-byte fmt chunk: cb_size 3 and three ignored bytes */
 		rf_wavheader_init(&h, 8000, 1, RF_WAVHEADER_S16LE);
 		h.fmt_chunk_size = 21; h.cb_size = 3; h.chunk_size = 4 + 8 + 21 + 8;
@@ -192,7 +198,7 @@ static void gen_decode(long seed, int nrandom)
 	static const unsigned cbs[] = { 0, 1, 21, 22, 23, 0xffff };
 	uint8_t buf[300], m[300];
 	drv_srand(seed);
-	for (int kind = 0; kind < 6; kind++) {
+	for (int kind = 0; kind < 7; kind++) {
 		int n = base_header(kind, buf);
 		for (int k = 0; k <= n; k++) decode_case(buf, k);                 /* every truncation point */
 		decode_case(buf, n);
@@ -215,6 +221,35 @@ static void gen_decode(long seed, int nrandom)
 			memcpy(m, buf, n); m[off] = 0xff; decode_case(m, n);
 		}
 		for (int off = 32; off < 36; off++) { memcpy(m, buf, n); m[32] = m[33] = 0; m[off] = 0; decode_case(m, n); } /* block_align 0 */
+	}
+	/* an ignored fmt extension larger than 64 KiB */
+	{
+		int ext = 70000, n = base_header(5, buf);
+		uint8_t *big = calloc(1, n + ext);
+		memcpy(big, buf, 38);
+		put32(big + 16, 18 + ext);
+		put32(big + 4, 4 + 8 + 18 + ext + 8);
+		memset(big + 38, 0x5a, ext);
+		memcpy(big + 38 + ext, buf + 41, n - 41);
+		decode_case(big, 38 + ext + (n - 41));
+		decode_case(big, 38 + ext + (n - 41) - 1);
+		free(big);
+	}
+	/* combinations of field values (several fields at once): format tag x bits x block_align x channels x sub-format tag */
+	{
+		static const unsigned fmts[] = { 0, 1, 3, 0xfffe }, bitsv[] = { 0, 1, 4, 7, 8, 16, 32 }, bas[] = { 0, 1, 4 }, chv[] = { 0, 1, 2 }, tags[] = { 0, 1, 3, 0xfffe };
+		for (int kind = 0; kind < 6; kind += 3)            /* a 44-byte PCM header and the 68-byte extensible one */
+			for (unsigned a = 0; a < 4; a++) for (unsigned b = 0; b < 7; b++) for (unsigned c = 0; c < 3; c++)
+				for (unsigned d = 0; d < 3; d++) for (unsigned e = 0; e < (kind == 3 ? 4u : 1u); e++) {
+					int n = base_header(kind, buf);
+					memcpy(m, buf, n);
+					m[20] = fmts[a] & 0xff; m[21] = fmts[a] >> 8;
+					m[22] = chv[d]; m[23] = 0;
+					m[32] = bas[c]; m[33] = 0;
+					m[34] = bitsv[b]; m[35] = 0;
+					if (kind == 3) { m[44] = tags[e] & 0xff; m[45] = tags[e] >> 8; }
+					decode_case(m, n);
+				}
 	}
 	for (int i = 0; i < nrandom; i++) {
 		int kind = drv_below(6), n = base_header(kind, buf);
